@@ -110,6 +110,9 @@ pub enum Op {
     Fill(u32, u32, u32),
     /// the same get `n` times (seek-triggered compaction)
     GetN(Vec<u8>, u32),
+    /// size limit of level 1 in bytes (deeper levels 10x each) for this history: makes size-triggered
+    /// compactions of deeper levels (compaction pointers, round-robin picking) happen with small data
+    LevelLimit(u64),
     /// `n` fresh iterators, each seeks to the key and reads one entry (every new iterator samples
     /// its first read: read-sample charges and the compactions they trigger)
     SeekN(Vec<u8>, u32),
@@ -169,6 +172,7 @@ impl Op {
             Op::Fill(s, n, l) => format!("F:{s}:{n}:{l}"),
             Op::GetN(k, n) => format!("M:{}:{n}", hex(k)),
             Op::SeekN(k, n) => format!("J:{}:{n}", hex(k)),
+            Op::LevelLimit(n) => format!("L:{n}"),
             Op::IterOpen(i) => format!("O:{i}"),
             Op::IterClose(i) => format!("Q:{i}"),
         }
@@ -206,6 +210,7 @@ impl Op {
             "F" => Op::Fill(p.get(1)?.parse().ok()?, p.get(2)?.parse().ok()?, p.get(3)?.parse().ok()?),
             "M" => Op::GetN(unhex(p.get(1)?)?, p.get(2)?.parse().ok()?),
             "J" => Op::SeekN(unhex(p.get(1)?)?, p.get(2)?.parse().ok()?),
+            "L" => Op::LevelLimit(p.get(1)?.parse().ok()?),
             "O" => Op::IterOpen(p.get(1)?.parse().ok()?),
             "Q" => Op::IterClose(p.get(1)?.parse().ok()?),
             _ => return None,
@@ -748,6 +753,7 @@ pub fn run_history(h: &History, checks: &Checks, fs: &SimFs) -> RunOut {
     let mut cfg = h.cfg.clone();
     let mut completed = 0usize;
     let _ = raindb::verif::events_take(DB_PATH);
+    raindb::verif::set_level_one_max_bytes(0);
     sched_reset();
     let mut db: Option<DB> = match DB::open(cfg.options(fs)) {
         Ok(d) => Some(d),
@@ -883,6 +889,7 @@ pub fn run_history(h: &History, checks: &Checks, fs: &SimFs) -> RunOut {
                     }
                 }
             }
+            Op::LevelLimit(n) => raindb::verif::set_level_one_max_bytes(*n),
             Op::SeekN(k, n) => {
                 let want = oracle.range(k.clone()..).next().map(|(a, b)| (a.clone(), b.clone()));
                 for _ in 0..*n {
